@@ -169,9 +169,10 @@ def comparison_edges(body, vars_, key, implies, domain=range(0, 16)):
 
 
 def reaches_without(cfg, starts, target, cut_edges=(), cut_blocks=()):
-    """is `target` block reachable from any block in `starts` without using cut edges/blocks?"""
+    """is `target` (a block, or any block of a collection) reachable from any block in `starts` without using cut edges/blocks?"""
     cut_edges = set(cut_edges)
     cut_blocks = set(cut_blocks)
+    targets = set(target) if isinstance(target, (list, tuple, set, frozenset)) else {target}
     seen = set()
     st = [s for s in starts if s not in cut_blocks]
     while st:
@@ -179,7 +180,7 @@ def reaches_without(cfg, starts, target, cut_edges=(), cut_blocks=()):
         if x in seen:
             continue
         seen.add(x)
-        if x == target:
+        if x in targets:
             return True
         for s in cfg.succ[x]:
             if (x, s) in cut_edges or s in cut_blocks:
